@@ -576,10 +576,17 @@ func (c *Context) onKilled(message *vivid.OnKilled, behavior vivid.Behavior) {
 
 	v := chain.NewVoid()
 	if c.zombie {
+		// 僵尸 Actor 仅由针对自身的终止流程释放；其他 Actor 的终止通知（例如它曾监听的 Actor）与其无关
+		if !message.Ref.Equals(c.ref) {
+			return
+		}
 		handler.shouldContinue = true
 		handler.prepareSelfKilledMessage()
 		handler.restarting = false
 		handler.cleanupIfNotRestarting()
+		// 只释放一次：清除僵尸标记后，之后到达的消息按已终止的 Actor 处理（进入死信），
+		// 否则每一次 Kill 都会重复发布终止事件并再次通知父级与监听者
+		c.zombie = false
 		return
 	}
 
